@@ -1,4 +1,4 @@
-(* C15 — Loaders stay safe and invent nothing on truncated or malformed files.  Statements only; proofs in IOProofs.v / TextProofs.v. *)
+(* C15 — Loaders stay safe and invent nothing on truncated or malformed files.  Statements only; proofs in IOProofs.v / TextProofs.v / TextLoadProofs.v. *)
 From Coq Require Import List NArith.
 From BG Require Import Base DirectedModel IOModel IOProofs TextProofs.
 Import ListNotations.
@@ -24,3 +24,32 @@ Example C15_refuted_on_pinned :
   omap (fun g => (adj g, labels g)) (load_binary repaired false 4 (firstn 16 file)) = Val ([[5]; []; []; []; []; []], [((0, 5), 11%N)]) /\
   load_binary_pinned repaired false 4 (firstn 4 file) = Undef StaleRead.
 Proof. vm_compute. auto. Qed.
+
+(* "invent nothing" for text: whatever the bytes, every edge of a graph a text loader returns comes from some non-comment line of the file
+   whose first two tokens denote its endpoints *)
+From Coq Require Import Arith.
+From BG Require Import DirectedProofs TextLoadProofs.
+Theorem C15_text_loader_invents_nothing :
+  forall (L : Type) (V : variant) (und strict hs : bool) (label_of_text : bytes -> outcome L) (b : bytes) (g : (@dgraph L)) (names : list bytes),
+        load_text V und strict hs label_of_text b = Val (g, names) ->
+        forall i j : nat,
+        In j (nb g i) ->
+        exists line t1 t2 rest : bytes,
+          In line (lines_of b []) /\
+          is_comment line = false /\
+          find_edge_from_string line = Val (t1, t2, rest) /\
+          (vertex_of_text strict t1 = Val i /\ vertex_of_text strict t2 = Val j \/ und = true /\ vertex_of_text strict t1 = Val j /\ vertex_of_text strict t2 = Val i).
+Proof. intros L. exact (@TextLoadProofs.load_text_invents_nothing L). Qed.
+Print Assumptions C15_text_loader_invents_nothing.
+Theorem C15_name_loader_invents_nothing :
+  forall (L : Type) (V : variant) (und hs : bool) (label_of_text : bytes -> outcome L) (b : bytes) (g : (@dgraph L)) (names : list bytes),
+        load_text_names V und hs label_of_text b = Val (g, names) ->
+        forall i j : nat,
+        In j (nb g i) ->
+        exists line t1 t2 rest : bytes,
+          In line (lines_of b []) /\
+          is_comment line = false /\
+          find_edge_from_string line = Val (t1, t2, rest) /\
+          (name_index t1 names 0 = Some i /\ name_index t2 names 0 = Some j \/ und = true /\ name_index t1 names 0 = Some j /\ name_index t2 names 0 = Some i).
+Proof. intros L. exact (@TextLoadProofs.load_text_names_invents_nothing L). Qed.
+Print Assumptions C15_name_loader_invents_nothing.
